@@ -80,6 +80,28 @@ def short_steps(steps):
     return " ; ".join(out)
 
 
+def refit_lineage(r):
+    """step (1-based) -> True when a C++ object that was fitted more than once is involved: the object fitted or
+    copied at that step, or the object applied at that step, or the producer of an array in the ancestry of its input."""
+    out = {}
+    state = {"o": False, "c": False}
+    taint = []
+    for i, (st, ob) in enumerate(zip(r["steps"], r["obs"])):
+        if st["op"] == "fit":
+            state["o"] = bool(ob.get("reused", False))
+            out[i + 1] = state["o"]
+        elif st["op"] == "copy":
+            state["c"] = state["o"]
+            out[i + 1] = state["o"]
+        else:
+            t = state.get(st["who"], False)
+            if st["src"]["t"] == "a":
+                t = t or taint[st["src"]["a"] - 1]
+            taint.append(t)
+            out[i + 1] = t
+    return out
+
+
 def explore(ck, plan, stats, workers):
     w = ck.work
     tag = plan["tag"]
@@ -134,11 +156,7 @@ def explore(ck, plan, stats, workers):
         r = byid[rj["id"]]
         cs = cases[rj["id"]]
         for f in rj["fails"]:
-            # was the object used at that step really fitted twice (same C++ object)?
-            reused = False
-            for i in range(min(f["step"], len(r["steps"]))):
-                if r["steps"][i]["op"] == "fit":
-                    reused = bool(r["obs"][i].get("reused", False))
+            reused = refit_lineage(r).get(f["step"], False)
             rec = {"kind": rj["kind"], "sig": "%s:%s" % (f["tag"], f["name"]), "op": f["op"], "opt": f["opt"],
                    "refit_same_object": reused, "masked": f["masked"], "hasna": f["hasna"], "e": f["e"],
                    "base": f["base"], "fitdata": f["fitdata"], "step": f["step"], "array": f["k"]}
@@ -289,7 +307,7 @@ def run(tier):
         "inversion; empirical anamorphosis / PCA / MAF / rotations 1e-9; identical arithmetic 1e-11)",
         "for anamorphoses two arrays agree when they agree in the raw OR in the Gaussian scale (a monotone function is compared "
         "in its better conditioned scale); elements that left the practical interval reported by the object at any step are not compared",
-        "a re-fit with other constructor options (polynomial count, dilution mode) is a new C++ object; the same object is re-fitted "
+        "refit_same_object in a disagreement = a re-fitted C++ object is in the lineage of the step; a re-fit with other constructor options (polynomial count, dilution mode) is a new C++ object; the same object is re-fitted "
         "when the options are unchanged",
         "normal scores: ties are broken arbitrarily (only strict order is demanded); the Db entry point is compared with the score of "
         "the selected samples",
